@@ -615,7 +615,9 @@ static void runCase(Ctx& c, long idx, Rng& r) {
     Geodesic gC; bool okC = false; std::vector<Knot> knC; PathBound BC; RefState endC; double endCErr = 0;
     SeqInfo qC; qC.tag = "implicit-geodesic:" + sname; qC.implicit = true; qC.acc = 1e-6; qC.ctol = 1e-10;
     const bool noOld = c.args.getInt("noold", 0) != 0;          // profiling aid only
-    const bool runC = !noOld && ((variant != 2) || (idx / 48) % 2 == 0);
+    // (this interface runs a full Simbody integrator on a particle system: 5x the cost of everything
+    // else in the case, so it is exercised in one accuracy variant per length class)
+    const bool runC = !noOld && (variant == lenClass % 3);
     if (runC) {
         c.setPhase("shootGeodesicInDirectionUntilLengthReached " + sname);
         try { geom.shootGeodesicInDirectionUntilLengthReached(p0, UnitVec3(t0), L, GeodesicOptions(), gC); okC = true; }
@@ -641,7 +643,7 @@ static void runCase(Ctx& c, long idx, Rng& r) {
                 c.check("end-vs-reference-jacobiQDot:implicit-geodesic:" + sname, std::fabs(gC.getJacobiQDot() - endC.jrd), e.jrd, WD("getJacobiQDot() differs from closed form / reference"));
                 if (qC.hasJt) c.check("end-vs-reference-jacobiTransQ:implicit-geodesic:" + sname, std::fabs(gC.getJacobiTransQ() - endC.jt), e.jt, WD("getJacobiTransQ() differs from closed form / reference"));
                 // backwards field through the public completion call: jP(0) must equal jQ(L) in magnitude
-                if (r.coin(0.25)) {
+                if (r.coin(0.4)) {
                     c.setPhase("calcGeodesicReverseSensitivity " + sname);
                     bool okR = false;
                     try { geom.calcGeodesicReverseSensitivity(gC, Vec2(0, 1)); okR = true; }
@@ -850,7 +852,7 @@ static void runCase(Ctx& c, long idx, Rng& r) {
     }
     // ---------------- G: history: a plane-terminated shot must not change what a later
     // length-terminated shot on the same surface object returns
-    if (okC && r.coin(0.3)) {
+    if (okC && r.coin(0.4)) {
         RefState mid; mid.p = p0; mid.t = t0; advance(S, mid, 0.5 * L);
         const double d0 = ~mid.t * (p0 - mid.p);
         if (std::fabs(d0) > 1e-3 * S.size) {
